@@ -283,7 +283,8 @@ def step (st : St) (line : String) : St × String :=
     | _, _ => bad
   | ["gff_parse", l] =>
     match decStr l with
-    | some l => (st, match parseLine l with | .ok e => encEntryB e | .error e => errS e)
+    | some l => (st, if (gffIndex [l]).entries.isEmpty then "no-entry" else
+        match parseLine l with | .ok e => encEntryB e | .error e => errS e)
     | none => bad
   | ["gbf_parse", ls] =>
     match decList ls with
